@@ -25,7 +25,7 @@
  *   STATE <idx> solve|op
  *   c <cid> <bound> <dynamic_bound_ field> <expected dynamic bound> <policy> <cbkind> <limit> <current> <slack>
  *     <#enabled elems> <#disabled elems>
- *   v <vid> <penalty> <staged> <bound> <value> <nelem> {<cid> <weight>}*
+ *   v <vid> <penalty> <staged> <bound> <value> <nelem> {<cid> <weight> <max_consumption_weight>}*
  *   f <vid> <value in the fresh system>           (only with fresh 1, after solves)
  *   END
  *   LMMVIOL ... / LMMMON ...                      (monitor)
@@ -138,6 +138,11 @@ int main(int argc, char** argv)
   struct rlimit rl = {0, 0};
   setrlimit(RLIMIT_CORE, &rl);
   signal(SIGABRT, on_abort);
+  /* self-destruct: a solver that loops forever is killed by SIGXCPU after 2 s of CPU time (load independent; a normal
+   * history takes a few ms), and by SIGALRM after 60 s of wall time whatever happens to the runner */
+  struct rlimit cpu = {2, 3};
+  setrlimit(RLIMIT_CPU, &cpu);
+  alarm(60);
   static char outbuf[1 << 16];
   setvbuf(stdout, outbuf, _IOFBF, sizeof outbuf);
 
@@ -209,7 +214,7 @@ int main(int argc, char** argv)
       printf("v %d %.17g %.17g %.17g %.17g %zu", vid, v->sharing_penalty_, v->staged_sharing_penalty_, v->bound_,
              v->value_, v->cnsts_.size());
       for (lmm::Element const& e : v->cnsts_)
-        printf(" %d %.17g", cid_of[e.constraint], e.consumption_weight);
+        printf(" %d %.17g %.17g", cid_of[e.constraint], e.consumption_weight, e.max_consumption_weight);
       printf("\n");
     }
     if (with_fresh) {
